@@ -380,3 +380,55 @@
 ;=> (other x)
 (kind-of-datum (1) x)
 ;=> (other x)
+===
+(define-syntax tail-of-two-literal
+  (syntax-rules (stop)
+    ((_ a ... b stop) (first (a ...) b))
+    ((_ x ...) (second x ...))))
+(tail-of-two-literal 1 2 3 stop)
+;=> (first (1 2) 3)
+(tail-of-two-literal 1 2 stop)
+;=> (first (1) 2)
+(tail-of-two-literal 1 2 3 4)
+;=> (second 1 2 3 4)
+(tail-of-two-literal 1 2 3 halt)
+;=> (second 1 2 3 halt)
+===
+(define-syntax tail-of-two-datum
+  (syntax-rules ()
+    ((_ a ... b 0) (first (a ...) b))
+    ((_ x ...) (second x ...))))
+(tail-of-two-datum 1 2 3 0)
+;=> (first (1 2) 3)
+(tail-of-two-datum 1 2 3 4)
+;=> (second 1 2 3 4)
+===
+(define-syntax tail-of-two-nested
+  (syntax-rules ()
+    ((_ a ... b (c d)) (first (a ...) b c d))
+    ((_ x ...) (second x ...))))
+(tail-of-two-nested 1 2 3 (4 5))
+;=> (first (1 2) 3 4 5)
+(tail-of-two-nested 1 2 3 4)
+;=> (second 1 2 3 4)
+(tail-of-two-nested 1 2 3 (4 5 6))
+;=> (second 1 2 3 (4 5 6))
+===
+(define-syntax tail-of-two-only-rule
+  (syntax-rules (stop)
+    ((_ a ... b stop) ((a ...) b))))
+(tail-of-two-only-rule 1 2 3 stop)
+;=> ((1 2) 3)
+(tail-of-two-only-rule 1 2 3 4)
+;=> !
+===
+(define-syntax tail-of-three
+  (syntax-rules (x y)
+    ((_ a ... x b y) (xy (a ...) b))
+    ((_ a ...) (plain a ...))))
+(tail-of-three 1 2 x 3 y)
+;=> (xy (1 2) 3)
+(tail-of-three 1 2 x 3 z)
+;=> (plain 1 2 x 3 z)
+(tail-of-three 1 2 z 3 y)
+;=> (plain 1 2 z 3 y)
